@@ -1,4 +1,6 @@
 ---------------------------- MODULE Ind_Add ----------------------------
+(* Apalache inductive lemma (unbounded integers): digit-serial addition of one digit, least significant digit first - the      *)
+(* step of Bignum!AddStep: pout + carry * pow = pin + a with carry in 0..1 is inductive for an arbitrary next digit.            *)
 EXTENDS Integers
 \* Digit-serial addition of a single digit a to a decimal string, least significant digit first:
 \* the operand digit is added at the first position only, afterwards only the carry propagates.
